@@ -62,10 +62,27 @@ def dart_tables(outdir, enums):
                 v = fwd.get(norm(n))
                 if v is not None and v not in rev:
                     rev[v] = norm(n)
-        if mode == "index" and re.search(r"\b\w+\._ffi\b", "") is None:
-            pass
+        # use sites: what a method receiver (`self`) and an enum-typed argument are converted with before the native call.
+        # `index` is the declaration position; it equals the discriminant only for enums numbered 0, 1, 2, ...
+        pos = {norm(n): i for i, n in enumerate(variants)}
+        sites = []
+        for cm_ in re.finditer(r"\b(_%s_\w+)\(([^;{}]*?)\);" % re.escape(e), body):
+            args = [a.strip() for a in cm_.group(2).split(",")]
+            if args and args[0] in ("index", "_ffi"):
+                sites.append((cm_.group(1) + " (receiver)", args[0]))
+        for cm_ in re.finditer(r"\b(_\w+_rt_%s)\(([^;{}]*?)\);" % re.escape(e.lower()), alltxt):
+            for a in [a.strip() for a in cm_.group(2).split(",")]:
+                am = re.fullmatch(r"\w+\.(index|_ffi)", a)
+                if am:
+                    sites.append((cm_.group(1) + " (argument)", am.group(1)))
+        for where, how in sites:
+            if how == "index":
+                for n_, v_ in list(fwd.items()):
+                    if isinstance(v_, int) and pos.get(n_) != v_:
+                        fwd[n_] = "%s passes `index` (= %d for this variant) to Rust, the enum's _ffi value is %d" % (where, pos.get(n_, -1), v_)
+        t.notes[e] = "dart use sites: %r" % (sites,)
         t.fwd[e], t.rev[e] = fwd, rev
-        t.notes[e] = "dart %s forward, %s reverse" % (mode, "index" if (idx_rev and not fw_rev) else "firstWhere")
+        t.notes[e] = t.notes.get(e, "") + "; dart %s forward, %s reverse" % (mode, "index" if (idx_rev and not fw_rev) else "firstWhere")
     return t
 
 
